@@ -175,11 +175,22 @@ def boundaryHeadings : (last new : List (Option (Option String))) → (lvl : Nat
     | _ => boundaryHeadings ls ns (lvl + 1) force     -- None (absent or null): `continue`
   | _, _, _, _ => []
 
-/-- `last_values.update(new_values)`: keys present in `new` overwrite -/
-def updateLast : (last new : List (Option (Option String))) → List (Option (Option String))
-  | l :: ls, n :: ns => (match n with | some v => some v | none => l) :: updateLast ls ns
-  | ls, [] => ls
-  | [], ns => ns
+/-- the remembered values after one boundary of `_render_body`: the same walk over the levels as
+`boundaryHeadings` (same `force_render`); a level without heading (`val is None`: divider = absent, or
+null) is forgotten (`last_values.pop`) when an outer level was rendered, then
+`last_values.update(new_values)`: keys present in `new` (real or null) overwrite. -/
+def updateLast : (last new : List (Option (Option String))) → (force : Bool) → List (Option (Option String))
+  | l :: ls, n :: ns, force =>
+    match n with
+    | some (some s) =>
+      let differs := match l with
+        | some (some v) => s != v
+        | _ => true
+      some (some s) :: updateLast ls ns (differs || force)
+    | some none => some none :: updateLast ls ns force          -- popped or not, `update` writes the null
+    | none => (if force then none else l) :: updateLast ls ns force
+  | ls, [], _ => ls
+  | [], ns, _ => ns
 
 /-- body of one page with spanning rows: rows `[start, start+height)` of the original frame decide
 the boundaries (raw value inequality of consecutive rows); data rows are numbered from `dataStart`. -/
@@ -192,7 +203,7 @@ def bodyBlocks : (keys : List (List (Option String))) → (prevKey : Option (Lis
     | some pk =>
       if pk != k then
         let nv := groupValues k
-        boundaryHeadings last nv 0 false ++ Block.data i :: bodyBlocks ks (some k) (updateLast last nv) (i + 1)
+        boundaryHeadings last nv 0 false ++ Block.data i :: bodyBlocks ks (some k) (updateLast last nv false) (i + 1)
       else Block.data i :: bodyBlocks ks (some k) last (i + 1)
 
 def dataBlocks (start n : Nat) : List Block := (List.range n).map fun j => Block.data (start + j)
